@@ -979,3 +979,187 @@ Example C10_roundtrip_annual_single_security_nonvacuous :
       /\ map (fun d => (d_sd d, is_sfl_delta d)) (later_deltas an2_date (fst (sec_run exact an2_rows)))
          = [(737680, true); (737680, false); (737700, false)]%Z).
 Proof. split; [exact an_entry_hypotheses | exact an2_entry_hypotheses]. Qed.
+
+(* ==================================================================== extension 5: several securities
+   (Proofs/C10Erase.v, Proofs/C10App.v, Proofs/C10AppEx.v; design.d/C10-roundtrip.md "Extension 5") *)
+From ACB Require Import Proofs.EraseRi Proofs.Layout Proofs.C10Erase Proofs.C10App Proofs.C10AppEx.
+
+(* ------------------------------------------------------------------ (17) the summary does not read the read indices
+   make_summary of a delta list whose rows have their read indices erased is
+   the summary with the read indices erased (the generated rows carry index 0,
+   the re-emitted rows copy the index of their row): any arithmetic, both
+   modes, failures included.  And every row of a summary carries the security
+   of the deltas it was made from. *)
+Theorem C10_summary_ignores_read_indices : forall A latest ds annual,
+  make_summary A latest (map erase_d ds) annual = map_res (map erase) (make_summary A latest ds annual).
+Proof. exact make_summary_erase. Qed.
+Check C10_summary_ignores_read_indices : forall A latest ds annual,
+  make_summary A latest (map erase_d ds) annual = map_res (map erase) (make_summary A latest ds annual).
+Print Assumptions C10_summary_ignores_read_indices.
+
+Theorem C10_summary_security : forall A s latest ds annual sums,
+  Forall (fun d => t_sec (d_tx d) = s) ds ->
+  make_summary A latest ds annual = Ok sums -> Forall (fun t => t_sec t = s) sums.
+Proof. exact make_summary_sec. Qed.
+Check C10_summary_security : forall A s latest ds annual sums,
+  Forall (fun d => t_sec (d_tx d) = s) ds ->
+  make_summary A latest ds annual = Ok sums -> Forall (fun t => t_sec t = s) sums.
+Print Assumptions C10_summary_security.
+
+(* ------------------------------------------------------------------ (18) step (b): the application decomposes per security
+   run_app reports, for every security of the input in increasing number,
+   the run of that security's rows; when every per-security summary is
+   produced, the summary of the application (all_summaries = summary.rs
+   make_aggregate_summary_txs) is their concatenation in that order.  The
+   re-run of (rows [sums] ++ rows after the date), renumbered by position in
+   the concatenated input, computes for security [s] - up to read indices -
+   what (rows of [s] among [sums]) ++ (later rows of [s]), numbered within the
+   security, give.  Any arithmetic, both modes. *)
+Theorem C10_app_summary_decomposes : forall A latest annual rows,
+  let R := fun s => sec_result_of A None (txs_of_sec s (sort_txs rows)) in
+  let SL := securities (sort_txs rows) in
+  run_app A [] rows = Ok (map (fun s => (s, R s)) SL)
+  /\ ((forall s, In s SL -> exists x, make_summary A latest (fst (R s)) annual = Ok x) ->
+      all_summaries A latest annual (map (fun s => (s, R s)) SL) = Ok (flat_map (sum_of A R latest annual) SL)
+      /\ forall s, In s SL ->
+           make_summary A latest (fst (R s)) annual = Ok (sum_of A R latest annual s)
+           /\ (Forall (fun d => t_sec (d_tx d) = s) (fst (R s)) ->
+               Forall (fun t => t_sec t = s) (sum_of A R latest annual s))).
+Proof. exact app_summary_decomposes. Qed.
+Check C10_app_summary_decomposes : forall A latest annual rows,
+  let R := fun s => sec_result_of A None (txs_of_sec s (sort_txs rows)) in
+  let SL := securities (sort_txs rows) in
+  run_app A [] rows = Ok (map (fun s => (s, R s)) SL)
+  /\ ((forall s, In s SL -> exists x, make_summary A latest (fst (R s)) annual = Ok x) ->
+      all_summaries A latest annual (map (fun s => (s, R s)) SL) = Ok (flat_map (sum_of A R latest annual) SL)
+      /\ forall s, In s SL ->
+           make_summary A latest (fst (R s)) annual = Ok (sum_of A R latest annual s)
+           /\ (Forall (fun d => t_sec (d_tx d) = s) (fst (R s)) ->
+               Forall (fun t => t_sec t = s) (sum_of A R latest annual s))).
+Print Assumptions C10_app_summary_decomposes.
+
+Theorem C10_app_rerun_per_security : forall A s latest sums rows0,
+  erase_result (sec_result_of A None
+                  (txs_of_sec s (sort_txs (number (sums ++ rows_after latest (number rows0))))))
+  = erase_result (sec_run A (number (txs_of_sec s sums ++ rows_after latest (number (txs_of_sec s rows0))))).
+Proof. exact app_rerun_per_security. Qed.
+Check C10_app_rerun_per_security : forall A s latest sums rows0,
+  erase_result (sec_result_of A None
+                  (txs_of_sec s (sort_txs (number (sums ++ rows_after latest (number rows0))))))
+  = erase_result (sec_run A (number (txs_of_sec s sums ++ rows_after latest (number (txs_of_sec s rows0))))).
+Print Assumptions C10_app_rerun_per_security.
+
+(* ------------------------------------------------------------------ (19) C10_roundtrip_simple_app
+   THE ROUND TRIP OF THE APPLICATION, several securities, simple mode, any date.
+   rows0 = the input rows of ALL securities in input order; the program numbers
+   them by position (number_from 0 rows0).  For every security s of the input,
+   the rows of s (txs_of_sec s rows0, numbered within the security) satisfy the
+   hypotheses of (10) C10_roundtrip_simple_single_security.  Then every security
+   of the history is accepted; the summaries of all securities are produced
+   (all_summaries: per security, in increasing security number); their
+   concatenation ++ the rows after the date, renumbered by position, is accepted
+   for every security (and has no other security); and every security reports
+   every later row as the full history does - strict comparison (obs = false)
+   and observational comparison (obs = true) alike (Model/SummaryApp.v
+   app_roundtrip).  The CSV layer (through_csv) is the identity on the
+   concatenation because it is on every security's summary. *)
+Theorem C10_roundtrip_simple_app : forall regof latest rows0,
+  Forall (fun s =>
+            let rs0 := txs_of_sec s rows0 in
+            Forall (rowQ regof s) rs0 /\ forallb valid_tx rs0 = true /\ K_zero_sfl_cell rs0 = false
+            /\ history_ok exact (Summary.number_from 0 rs0) = true
+            /\ K_summary_buy_in_window exact latest false (Summary.number_from 0 rs0) = false
+            /\ K_zero_balance_acb exact latest (Summary.number_from 0 rs0) = false
+            /\ (forall sums, make_summary exact latest (fst (sec_run exact (Summary.number_from 0 rs0))) false = Ok sums ->
+                             through_csv sums = sums))
+         (securities rows0) ->
+  app_history_ok exact (Summary.number_from 0 rows0) = true
+  /\ app_roundtrip exact false latest false (Summary.number_from 0 rows0) = true
+  /\ app_roundtrip exact true latest false (Summary.number_from 0 rows0) = true.
+Proof. exact roundtrip_simple_app. Qed.
+Check C10_roundtrip_simple_app : forall regof latest rows0,
+  Forall (fun s =>
+            let rs0 := txs_of_sec s rows0 in
+            Forall (rowQ regof s) rs0 /\ forallb valid_tx rs0 = true /\ K_zero_sfl_cell rs0 = false
+            /\ history_ok exact (Summary.number_from 0 rs0) = true
+            /\ K_summary_buy_in_window exact latest false (Summary.number_from 0 rs0) = false
+            /\ K_zero_balance_acb exact latest (Summary.number_from 0 rs0) = false
+            /\ (forall sums, make_summary exact latest (fst (sec_run exact (Summary.number_from 0 rs0))) false = Ok sums ->
+                             through_csv sums = sums))
+         (securities rows0) ->
+  app_history_ok exact (Summary.number_from 0 rows0) = true
+  /\ app_roundtrip exact false latest false (Summary.number_from 0 rows0) = true
+  /\ app_roundtrip exact true latest false (Summary.number_from 0 rows0) = true.
+Print Assumptions C10_roundtrip_simple_app.
+
+(* ------------------------------------------------------------------ (20) the same in the annual mode
+   per security the hypotheses of (16) C10_roundtrip_annual_single_security_partial
+   (class K_annual_row_in_window, hence _partial: see C10_roundtrip_annual_app_full). *)
+Theorem C10_roundtrip_annual_app_partial : forall regof latest rows0,
+  Forall (fun s =>
+            let rs0 := txs_of_sec s rows0 in
+            Forall (rowQ regof s) rs0 /\ forallb valid_tx rs0 = true /\ K_zero_sfl_cell rs0 = false
+            /\ history_ok exact (Summary.number_from 0 rs0) = true
+            /\ K_annual_row_in_window exact latest true (Summary.number_from 0 rs0) = false
+            /\ K_zero_balance_acb exact latest (Summary.number_from 0 rs0) = false
+            /\ (forall sums, make_summary exact latest (fst (sec_run exact (Summary.number_from 0 rs0))) true = Ok sums ->
+                             through_csv sums = sums))
+         (securities rows0) ->
+  app_history_ok exact (Summary.number_from 0 rows0) = true
+  /\ app_roundtrip exact false latest true (Summary.number_from 0 rows0) = true
+  /\ app_roundtrip exact true latest true (Summary.number_from 0 rows0) = true.
+Proof. exact roundtrip_annual_app. Qed.
+Check C10_roundtrip_annual_app_partial : forall regof latest rows0,
+  Forall (fun s =>
+            let rs0 := txs_of_sec s rows0 in
+            Forall (rowQ regof s) rs0 /\ forallb valid_tx rs0 = true /\ K_zero_sfl_cell rs0 = false
+            /\ history_ok exact (Summary.number_from 0 rs0) = true
+            /\ K_annual_row_in_window exact latest true (Summary.number_from 0 rs0) = false
+            /\ K_zero_balance_acb exact latest (Summary.number_from 0 rs0) = false
+            /\ (forall sums, make_summary exact latest (fst (sec_run exact (Summary.number_from 0 rs0))) true = Ok sums ->
+                             through_csv sums = sums))
+         (securities rows0) ->
+  app_history_ok exact (Summary.number_from 0 rows0) = true
+  /\ app_roundtrip exact false latest true (Summary.number_from 0 rows0) = true
+  /\ app_roundtrip exact true latest true (Summary.number_from 0 rows0) = true.
+Print Assumptions C10_roundtrip_annual_app_partial.
+
+(* open: the annual statement with the weaker class K_annual_sell_in_window per
+   security (missing: exactly what separates C10_roundtrip_annual_single_security_full
+   from (16) - the look-ahead of a generated loss sale over later sales / splits;
+   the several-securities layer above is already generic in the mode), and both
+   modes with rows entered for all affiliates (t_glob = true is excluded by rowQ;
+   missing: the idle-expansion simulation and through_csv turning re-emitted splits
+   of EVERY security global when no summary row names a non-default affiliate). *)
+Definition C10_roundtrip_annual_app_full : Prop := forall regof latest rows0,
+  Forall (fun s =>
+            let rs0 := txs_of_sec s rows0 in
+            Forall (rowQ regof s) rs0 /\ forallb valid_tx rs0 = true /\ K_zero_sfl_cell rs0 = false
+            /\ history_ok exact (Summary.number_from 0 rs0) = true
+            /\ K_annual_sell_in_window exact latest true (Summary.number_from 0 rs0) = false
+            /\ K_zero_balance_acb exact latest (Summary.number_from 0 rs0) = false
+            /\ (forall sums, make_summary exact latest (fst (sec_run exact (Summary.number_from 0 rs0))) true = Ok sums ->
+                             through_csv sums = sums))
+         (securities rows0) ->
+  app_history_ok exact (Summary.number_from 0 rows0) = true
+  /\ app_roundtrip exact false latest true (Summary.number_from 0 rows0) = true
+  /\ app_roundtrip exact true latest true (Summary.number_from 0 rows0) = true.
+
+(* non-vacuity of (19) and (20): a history of TWO securities (3 and 7), rows of
+   the two interleaved and not in date order, two affiliates each; the
+   hypotheses hold for both securities in both modes; the summary has rows of
+   both securities (simple: 4 purchases; annual: 4 base purchases and 2
+   1-January sales) and each security reports 3 later rows of which one is a
+   superficial loss *)
+Example C10_roundtrip_app_nonvacuous :
+  securities app2_rows0 = [3; 7]%N
+  /\ Forall (sec_hyps no_reg false app2_date app2_rows0) (securities app2_rows0)
+  /\ Forall (sec_hyps no_reg true app2_date app2_rows0) (securities app2_rows0)
+  /\ app_summary_shape false
+     = [(737005, (3, 1000, 0)%N); (737050, (3, 1003, 0)%N); (737000, (7, 1000, 0)%N); (737020, (7, 1003, 0)%N)]%Z
+  /\ app_summary_shape true
+     = [(736330, (3, 1000, 0)%N); (736330, (3, 1003, 0)%N); (736695, (3, 1003, 1)%N);
+        (736330, (7, 1000, 0)%N); (736330, (7, 1003, 0)%N); (736695, (7, 1003, 1)%N)]%Z
+  /\ app_later_shape = [(3%N, [(737150, true); (737150, false); (737160, false)]);
+                        (7%N, [(737200, true); (737200, false); (737210, false)])]%Z.
+Proof. exact app2_hypotheses. Qed.
